@@ -136,3 +136,31 @@ Theorem mux_sum_value (a b c : bool) e1 e2 :
   0 < w32 (c18 + u1 + u2) <-> (if a then b else c) = true.
 Proof. rewrite MU_val, c18_val. intro He. cbv zeta. unfold w32, p31, p32.
   destruct a; destruct b; destruct c; cbn [andb negb]; split; intro; try lia; try discriminate; try reflexivity. Qed.
+
+(* MUX as a whole: two bootstrappings of the inner combinations (rounded exponents p1, p2 with drifts below the margin 1/16),
+   the sum of their outputs plus 1/8 under the extracted key, then the key switch (error e3): the result decrypts to a ? b : c
+   whenever the three output errors add up to less than 1/8 *)
+Theorem mux_correct_partial n nx key xkey ca cb cc (a b c : bool) (N S p1 p2 d1 d2 : Z) u1 u2 e1 e2 cout e3 :
+  length (fst ca) = n -> length (fst cb) = n -> length (fst cc) = n ->
+  admissible (lwe_phase key ca) a -> admissible (lwe_phase key cb) b -> admissible (lwe_phase key cc) c ->
+  0 < N -> 2 * N * S = p32 -> 0 <= p1 < 2 * N -> 0 <= p2 < 2 * N ->
+  eqm32 (p1 * S) (lwe_phase key (mux_lin1 n ca cb) + d1) -> Z.abs d1 < 268435456 ->
+  eqm32 (p2 * S) (lwe_phase key (mux_lin2 n ca cc) + d2) -> Z.abs d2 < 268435456 ->
+  length (fst u1) = nx -> length (fst u2) = nx ->
+  lwe_phase xkey u1 = (if p1 <? N then MU else - MU) + e1 -> lwe_phase xkey u2 = (if p2 <? N then MU else - MU) + e2 ->
+  lwe_phase key cout = w32 (lwe_phase xkey (mux_sum nx u1 u2) + e3) -> Z.abs (e1 + e2 + e3) < 536870912 ->
+  decrypt_bit key cout = bit_of (if a then b else c).
+Proof. intros Hla Hlb Hlc Ha Hb Hc HN HS Hp1 Hp2 Hd1 Hb1 Hd2 Hb2 Hu1 Hu2 Ho1 Ho2 Hout He.
+  rewrite (mux_lin1_phase n key ca cb Hla Hlb) in Hd1. rewrite (mux_lin2_phase n key ca cc Hla Hlc) in Hd2.
+  destruct (mux_region _ _ _ a b c Ha Hb Hc) as [R1 R2].
+  rewrite (region_to_sign N S 268435456 _ d1 p1 (a && b) HN HS Hp1 ltac:(lia) R1 Hb1 Hd1) in Ho1.
+  rewrite (region_to_sign N S 268435456 _ d2 p2 (negb a && c) HN HS Hp2 ltac:(lia) R2 Hb2 Hd2) in Ho2.
+  rewrite (mux_sum_phase nx xkey u1 u2 Hu1 Hu2), Ho1, Ho2 in Hout.
+  pose proof (mux_sum_value a b c e1 (e2 + e3) ltac:(replace (e1 + (e2 + e3)) with (e1 + e2 + e3) by ring; exact He)) as V. cbv zeta in V.
+  assert (E : lwe_phase key cout = w32 (c18 + ((if a && b then MU else - MU) + e1) + ((if negb a && c then MU else - MU) + (e2 + e3)))).
+  { rewrite Hout. apply eqm32_w32. eapply eqm32_trans; [apply eqm32_add; [apply w32_eqm|apply eqm32_refl]|].
+    match goal with |- eqm32 ?x ?y => replace y with x by ring end. apply eqm32_refl. }
+  unfold decrypt_bit, bit_of. rewrite E.
+  destruct (Z.ltb_spec 0 (w32 (c18 + ((if a && b then MU else - MU) + e1) + ((if negb a && c then MU else - MU) + (e2 + e3))))) as [Hpos|Hneg].
+  - rewrite (proj1 V Hpos). reflexivity.
+  - destruct (if a then b else c) eqn:Ev; [exfalso; pose proof (proj2 V eq_refl); lia|reflexivity]. Qed.
